@@ -67,7 +67,7 @@ ASSUMPTIONS = [
 EXPECTED_PROBES = {
     'C04': ['alf_names', 'colvec', 'no_clusters_file', 'wmi_created', 'second_load', 'nonmonotonic',
             'sparse_templates', 'raw_extra_channels', 'poisoned', 'listing:shuffled', 'nan_template',
-            'inf_of_both_signs_in_one_file',
+            'inf_of_both_signs_in_one_file', 'alf_label_in_names', 'raw_cbin', 'raw_npy',
             'alf_times_without_samples'],
     'C05': ['sparse', 'dense', 'neighbourhood_bites', 'multi_shank', 'threshold_bites',
             'explicit_channels', 'minus_one_column', 'signal_free_column'],
@@ -321,6 +321,14 @@ def simplify(plan):
     if cfg['colvec']:
         p = copy.deepcopy(plan)
         p['cfg']['colvec'] = []
+        yield p
+    if cfg.get('alf_label'):
+        p = copy.deepcopy(plan)
+        p['cfg']['alf_label'] = ''
+        yield p
+    if cfg.get('raw') and cfg['raw'].get('format', 'flat') != 'flat':
+        p = copy.deepcopy(plan)
+        p['cfg']['raw']['format'] = 'flat'
         yield p
     if any(v == 'alf' for v in cfg['names'].values()):
         p = copy.deepcopy(plan)
@@ -579,6 +587,10 @@ class DatasetWorld(object):
             ctx.check(m.traces is None, 'attr-traces-default')
         if any(v == 'alf' for v in cfg['names'].values()):
             ctx.probe('alf_names')
+            if cfg.get('alf_label'):
+                ctx.probe('alf_label_in_names')
+        if cfg.get('raw') and cfg['raw'].get('format', 'flat') != 'flat':
+            ctx.probe('raw_' + cfg['raw']['format'])
         if cfg['names']['times'] == 'alf' and not p.get('samples_file'):
             ctx.probe('alf_times_without_samples')
         if cfg['colvec']:
@@ -598,6 +610,8 @@ class DatasetWorld(object):
         a = int(rs.randint(0, n))
         b = int(rs.randint(a + 1, n + 1))
         kind = rs.randint(0, 3)
+        if kind == 2 and self.cfg['raw'].get('format') == 'cbin':
+            kind = 0   # the compressed decoder does not offer index lists (C01's stated exception)
         if kind == 0:
             item, exp = slice(a, b), self.A[a:b]
         elif kind == 1:
@@ -606,6 +620,7 @@ class DatasetWorld(object):
             idx = np.unique(rs.randint(0, n, size=5))
             item, exp = idx, self.A[idx]
         got = ctx.real('traces[]', lambda: m.traces[item], owners=('C04',))
+        ctx.probe('traces_read')
         ctx.check(_aeq(got, exp) and got.dtype == exp.dtype, 'attr-traces-rows',
                   lambda: {'item': str(item), 'got': _desc(got), 'expected': _desc(exp)})
 
@@ -660,6 +675,7 @@ class DatasetWorld(object):
         cfg = self.cfg
         path = self.dir / world._name(cfg, 'times')
         arr = np.load(path)
+        lab = ('.' + cfg['alf_label']) if cfg.get('alf_label') else ''
         flat = arr.reshape(-1)
         if len(flat) < 2:
             return False
@@ -674,9 +690,9 @@ class DatasetWorld(object):
         flat[i], flat[j] = flat[j], flat[i]
         np.save(path, arr)
         if cfg['names']['times'] == 'alf' and cfg['present'].get('samples_file'):
-            s = np.load(self.dir / 'spikes.samples.npy')
+            s = np.load(self.dir / ('spikes.samples%s.npy' % lab))
             s[i], s[j] = s[j], s[i]
-            np.save(self.dir / 'spikes.samples.npy', s)
+            np.save(self.dir / ('spikes.samples%s.npy' % lab), s)
         self.ctx.fault('swap_two_times')
         self.ctx.probe('nonmonotonic')
         return True
@@ -1316,7 +1332,7 @@ def execute(plan, ctx):
         knobs['amplitude_threshold'] = cfg['knobs']['amplitude_threshold']
     counter = {}
     with seams.installed(listing=cfg.get('listing'), draw=cfg.get('draw'), seed=cfg['seed'],
-                         counter=counter, knobs=knobs):
+                         pool=cfg.get('pool') or 'shuffled', counter=counter, knobs=knobs):
         try:
             run_ops(plan, ctx, cfg)
         finally:
